@@ -34,7 +34,7 @@ type daemonOpts struct {
 	Race     bool
 	SshdPath string // "" = a FIFO; "regular" | "missing" | "dir"
 	AudPath  string
-	Output   string // "" = regular file; "devfull"
+	Output   string // "" = regular file; "devfull"; "fifo" (the harness reads it and can close it)
 	Extra    []string
 }
 
@@ -76,6 +76,10 @@ func startDaemon(o daemonOpts) *daemon {
 	d.audPipe = mkPath(dir, "audit-pipe", o.AudPath)
 	if o.Output == "devfull" {
 		d.outPath = "/dev/full"
+	} else if o.Output == "fifo" {
+		if err := syscall.Mkfifo(d.outPath, 0o600); err != nil {
+			panic(&infraError{err.Error()})
+		}
 	} else if err := os.WriteFile(d.outPath, nil, 0o600); err != nil {
 		panic(&infraError{err.Error()})
 	}
